@@ -15,6 +15,7 @@ import z3
 from . import paths
 from .paths import cur, Undecided, Unsupported
 
+FORMAT_CONCRETIZE = False
 IW = 24  # default modelling width; set per obligation with set_iw()
 
 
@@ -406,6 +407,11 @@ class SymInt:
         return SymInt(r)
 
     def __format__(self, spec):
+        # FORMAT_CONCRETIZE: the text is semantically relevant (StridedInterval.__hash__ formats its fields and
+        # the hash decides which members a Python set keeps), so fork over the feasible values; elsewhere
+        # (messages of exceptions, logging) a placeholder avoids forking on text nobody reads
+        if FORMAT_CONCRETIZE:
+            return format(concretize(self, label="format"), spec)
         return "<sym>"
 
     def __repr__(self):
